@@ -280,7 +280,9 @@ func (e *textEncoder) Encode(v any) (err error) {
 	case string:
 		_, err = e.w.Write([]byte(c))
 	case *string: // v may be a string pointer when the Response Body is set to the field of a custom response type.
-		_, err = e.w.Write([]byte(*c))
+		if c != nil { // the field may not be set
+			_, err = e.w.Write([]byte(*c))
+		}
 	case []byte:
 		_, err = e.w.Write(c)
 	default:
